@@ -21,6 +21,7 @@ type c14Item struct {
 	Alias  string `json:"alias"` // output column
 	Qual   string `json:"qual"`  // for immq: ASYNC|SPIN|SPINASYNC
 	Const  any    `json:"const,omitempty"`
+	Dup    bool   `json:"dup,omitempty"` // a later ONCE call of a function that already has one in this query
 	IsCons bool   `json:"is_const,omitempty"`
 }
 
@@ -98,11 +99,20 @@ func c14Project(items []c14Item, row map[string]any, onceVal map[int]any, sites 
 			}
 			out[it.Alias] = "$ALL_A"
 		case "once":
-			if _, ok := onceVal[it.Site]; !ok {
-				onceVal[it.Site] = stubValue(it.Stub, it.Site, arg)
+			// the memo is per function name: onceVal is keyed by a negative pseudo-site per stub
+			key := -1
+			if it.Stub == "fid" {
+				key = -2
+			}
+			if _, ok := onceVal[key]; !ok {
+				if it.Dup {
+					// cannot happen: a Dup item always follows the first call of its function
+					panic("c14: duplicate ONCE item before the first one")
+				}
+				onceVal[key] = []any{stubValue(it.Stub, it.Site, arg)}
 				sites[it.Site].Args = append(sites[it.Site].Args, argText(arg))
 			}
-			out[it.Alias] = onceVal[it.Site]
+			out[it.Alias] = onceVal[key].([]any)[0]
 		}
 	}
 	return out
@@ -168,12 +178,94 @@ func genC14Barrier(t *rapid.T) *Bundle {
 	return &Bundle{Prop: "C14", Kind: "barrier", Case: c, Expect: mustJSON(exp), Tags: []string{"place:barrier"}}
 }
 
+// genC14AwaitDerived: the README's AWAIT form - the outer query awaits ASYNC columns of a derived table.
+func genC14AwaitDerived(t *rapid.T) *Bundle {
+	n := rapid.IntRange(0, 5).Draw(t, "nrows")
+	rows := []any{}
+	for i := 0; i < n; i++ {
+		rows = append(rows, map[string]any{"id": float64(i + 1), "a": float64(rapid.IntRange(0, 5).Draw(t, "a") * 10), "s": rapid.SampledFrom([]string{"x", "y"}).Draw(t, "s"), "n": []any{},
+			"o": map[string]any{"p": float64(rapid.IntRange(1, 9).Draw(t, "op")), "q": rapid.SampledFrom([]string{"k", "m"}).Draw(t, "oq")}})
+	}
+	k := rapid.IntRange(1, 3).Draw(t, "nasync")
+	var inner, outer []string
+	sites := []c14Site{}
+	want := make([]map[string]any, n)
+	for i := range want {
+		want[i] = map[string]any{"id": float64(i + 1)}
+	}
+	var ids []int
+	for j := 1; j <= k; j++ {
+		stub := rapid.SampledFrom([]string{"fx", "fid"}).Draw(t, "stub")
+		col := rapid.SampledFrom([]string{"a", "s", "id", "o"}).Draw(t, "col")
+		sub := ""
+		if col == "o" {
+			// the awaited selector navigates into the object the ASYNC call returns (the README's form)
+			stub = "fid"
+			sub = rapid.SampledFrom([]string{"p", "q"}).Draw(t, "subkey")
+		}
+		inner = append(inner, fmt.Sprintf("ASYNC.%s(%d, %s) AS c%d", stub, j, col, j))
+		if sub != "" {
+			outer = append(outer, fmt.Sprintf("AWAIT(`d.c%d.%s`) AS c%d", j, sub, j))
+		} else {
+			outer = append(outer, fmt.Sprintf("AWAIT(d.c%d) AS c%d", j, j))
+		}
+		st := c14Site{ID: j, Kind: "async"}
+		for i, r := range rows {
+			v := r.(map[string]any)[col]
+			st.Args = append(st.Args, argText(v))
+			if sub != "" {
+				want[i][fmt.Sprintf("c%d", j)] = v.(map[string]any)[sub]
+			} else {
+				want[i][fmt.Sprintf("c%d", j)] = stubValue(stub, j, v)
+			}
+		}
+		sort.Strings(st.Args)
+		sites = append(sites, st)
+		ids = append(ids, j)
+	}
+	q := fmt.Sprintf("SELECT d.id AS id, %s FROM (SELECT id, %s FROM t) d", strings.Join(outer, ", "), strings.Join(inner, ", "))
+	exp := c14Expect{Place: "await_derived", Sites: sites}
+	for _, w := range want {
+		exp.Rows = append(exp.Rows, w)
+	}
+	if exp.Rows == nil {
+		exp.Rows = []any{}
+	}
+	c := oneClientCase("C14", drawSim(t, ""), map[string]any{"t": rows}, casefmt.Op{Doc: 0, Vars: -1, Query: q})
+	c.Stubs.Lat = drawLatencies(t, ids, n+1)
+	return &Bundle{Prop: "C14", Kind: "await_derived", Case: c, Expect: mustJSON(exp), Tags: []string{"place:await_derived"}}
+}
+
+// genC14OnceInJoinOn: a ONCE call in a join's ON (evaluated while the query is built) and the same function
+// under ONCE in the select list (evaluated by Exec) are one call per query.
+func genC14OnceInJoinOn(t *rapid.T) *Bundle {
+	n := rapid.IntRange(0, 4).Draw(t, "nrows")
+	rows := []any{}
+	want := []any{}
+	for i := 0; i < n; i++ {
+		rows = append(rows, map[string]any{"id": float64(i + 1), "a": float64(i * 10), "n": []any{}})
+		want = append(want, map[string]any{"id": float64(i + 1), "o": true})
+	}
+	jt := rapid.SampledFrom([]string{"JOIN", "LEFT JOIN", "PARALLEL JOIN", "STRAIGHT_JOIN"}).Draw(t, "jt")
+	q := fmt.Sprintf("SELECT x.id AS id, ONCE.fid(2, TRUE) AS o FROM t x %s t y ON x.id = y.id AND ONCE.fid(1, TRUE)", jt)
+	exp := c14Expect{Place: "once_in_join_on", Rows: want, Sites: []c14Site{{ID: 1, Kind: "once", Args: []string{"b:true"}}, {ID: 2, Kind: "once", Args: []string{}}}}
+	if n == 0 {
+		exp.Sites[0].Args = []string{}
+	}
+	c := oneClientCase("C14", drawSim(t, ""), map[string]any{"t": rows}, casefmt.Op{Doc: 0, Vars: -1, Query: q})
+	return &Bundle{Prop: "C14", Kind: "once_in_join_on", Case: c, Expect: mustJSON(exp), Tags: []string{"place:once_in_join_on"}}
+}
+
 func genC14(t *rapid.T) *Bundle {
 	switch rapid.IntRange(0, 39).Draw(t, "special") {
 	case 0, 1:
 		return genC14Reregister(t)
 	case 2:
 		return genC14Barrier(t)
+	case 3, 4, 5:
+		return genC14AwaitDerived(t)
+	case 6:
+		return genC14OnceInJoinOn(t)
 	}
 	nrows := rapid.IntRange(0, 6).Draw(t, "nrows")
 	place := rapid.SampledFrom([]string{"top", "derived_star", "cte", "subquery", "derived_cols", "subquery_in_derived", "subquery_in_cte", "union_branch", "exists", "cte_chain"}).Draw(t, "place")
@@ -226,8 +318,16 @@ func genC14(t *rapid.T) *Bundle {
 			if constKind == 1 {
 				it.Stub = "fid" // a NULL result needs the identity stub
 			}
-			if usedOnce[it.Stub] || inSub {
-				continue // one ONCE call per function name per query is all the statement fixes
+			if inSub {
+				continue
+			}
+			if usedOnce[it.Stub] {
+				// a second ONCE call of the same function in one query: still a single invocation per query,
+				// every row and both columns carry the first call's value
+				if rapid.IntRange(0, 2).Draw(t, "once_again") > 0 {
+					continue
+				}
+				it.Dup = true
 			}
 			usedOnce[it.Stub] = true
 			switch constKind {
@@ -516,6 +616,12 @@ func evalC14(b *Bundle, r *Runner) []*Violation {
 		}
 	}
 	got := normJSON(op.Rows)
+	if exp.Place == "once_in_join_on" {
+		// a join leaves the row order open
+		if ga, ok := asArray(got); ok && multisetEqual(ga, exp.Rows) {
+			got = any(exp.Rows)
+		}
+	}
 	if !exp.CompletionOnly && !jsonEqual(got, exp.Rows) {
 		cls := "ROWS_MISMATCH"
 		if len(op.Leaks) > 0 {
